@@ -80,6 +80,18 @@ func (ex *Exec) registerIntrinsics() {
 		ta := a[len(a)-1].(typeArgV).T
 		return ex.nondet(ex.str(a[0]), ta)
 	}
+	I[T+"vShareBarrier"] = func(ex *Exec, fr *frame, a []V) V {
+		var roots []V
+		if sl, ok := a[0].(Slice); ok && sl.B != nil {
+			n := int(ex.cint(sl.Len, "vShareBarrier args"))
+			it := types.NewInterfaceType(nil, nil)
+			for k := 0; k < n; k++ {
+				roots = append(roots, ex.load(ex.elemPtr(sl.B, sl.Off, ex.c64(int64(k)), it), it))
+			}
+		}
+		ex.shareBarrier(roots)
+		return nil
+	}
 	I[T+"vAssume"] = func(ex *Exec, fr *frame, a []V) V { ex.assume(a[0].(*Term)); return nil }
 	I[T+"vAssert"] = func(ex *Exec, fr *frame, a []V) V {
 		ex.assertObl(a[0].(*Term), ex.str(a[1]), "", nil)
@@ -235,8 +247,8 @@ func (ex *Exec) registerIntrinsics() {
 	I["runtime.SetFinalizer"] = func(ex *Exec, fr *frame, a []V) V { return nil }
 	I["runtime.KeepAlive"] = func(ex *Exec, fr *frame, a []V) V { return nil }
 	I["runtime.GC"] = func(ex *Exec, fr *frame, a []V) V { return nil }
-	I["(*sync.Mutex).Lock"] = func(ex *Exec, fr *frame, a []V) V { return nil }
-	I["(*sync.Mutex).Unlock"] = func(ex *Exec, fr *frame, a []V) V { return nil }
+	I["(*sync.Mutex).Lock"] = func(ex *Exec, fr *frame, a []V) V { ex.evLock(a[0], true); return nil }
+	I["(*sync.Mutex).Unlock"] = func(ex *Exec, fr *frame, a []V) V { ex.evLock(a[0], false); return nil }
 	I["(*sync.RWMutex).Lock"] = func(ex *Exec, fr *frame, a []V) V { return nil }
 	I["(*sync.RWMutex).Unlock"] = func(ex *Exec, fr *frame, a []V) V { return nil }
 	I["(*sync.RWMutex).RLock"] = func(ex *Exec, fr *frame, a []V) V { return nil }
